@@ -15,7 +15,7 @@ RULE = ("seeded typed query generator x small databases with NULLs/duplicates/em
         "source result has >= 1 row; distinct = distinct (source text, pair)")
 ASSUMPTIONS = ["SQLite 3.40.1 / DuckDB 1.5.5 define the semantics", "UnsupportedError from transpile(unsupported_level=RAISE) removes the case"]
 SPEC = {
-    "quick": {"shards": 16, "time_cap": 120, "cases": 10000},
+    "quick": {"shards": 16, "time_cap": 120, "cases": 40000},
     "thorough": {"shards": 16, "time_cap": 1200, "cases": 300000},
 }
 PAIRS = [("sqlite", "duckdb"), ("duckdb", "sqlite"), ("sqlite", "sqlite"), ("duckdb", "duckdb")]
@@ -26,7 +26,7 @@ def feats_for(src, dst, rng):
     f = dict(div=False, ts=True, strftime=True, nulls_order=True, setops_all=False, full_join=True,
              cte_cols=False)
     if src == "duckdb":
-        f.update(semi_anti=True, window=True, setops_all=(dst == "duckdb"), qualify=True, distinct_on=True)
+        f.update(semi_anti=True, window=True, setops_all=(dst == "duckdb"), qualify=True, distinct_on=True, alias_shadow=True)
         if dst == "sqlite":
             # SQLite 3.40's RIGHT/FULL JOIN (new in 3.39) has bugs of its own. With DuckDB-only syntax there is
             # no second opinion on the generator's text, so such cases use either SEMI/ANTI or RIGHT/FULL, not both.
@@ -100,6 +100,10 @@ def _case(ctx, i, q, text, src, dst, tables, data, mode, ordered):
                     dst == "duckdb" and b[0] == "ok" and not E.duck_self_consistent(out, ordered)):
                 ctx.count("engine_bug_dropped")
                 return
+        if b[0] != "ok" and "INTERNAL Error" in str(b[1]):
+            # DuckDB's own assertion failure ("INTERNAL Error ... this is a bug in DuckDB"): says nothing about sqlglot
+            ctx.count("engine_bug_dropped")
+            return
         if b[0] != "ok":
             ctx.violation(f"target-engine-error:{src}->{dst}", {"source": text, "transpiled": out, "error": b[1]},
                           {"pair": [src, dst], "sql": text, "tables": [(t.name, t.cols) for t in tables], "data": data})
